@@ -21,26 +21,18 @@ Theorem C16_testdoc_roundtrip : Forall (fun d => roundtrip_ok (snd d)) gen_tms_t
 Proof. exact testdoc_roundtrip_lemma. Qed.
 Print Assumptions C16_testdoc_roundtrip.
 
-(** The round trip, for EVERY document: if a document decodes to v, and the unsigned members of v's tile matrices
-    survive printing and reading back ([tms_stable]: the hypothesis the proof forces -- it fails exactly for values
-    wrapped from negative numbers, F6b below; every value below 2^53 satisfies it), then decoding the encoding of v
-    gives v with nil and empty slices identified ([norm_tms]) ... *)
-Theorem C16_decode_encode_decode : forall j t, decodeTMS j = Ok t -> tms_stable t ->
-  decodeTMS (encodeTMS t) = Ok (norm_tms t).
-Proof. exact decode_encode_decode_lemma. Qed.
+(** The round trip, for EVERY document: if a document decodes to v, then decoding the encoding of v gives v with nil
+    and empty slices identified ([norm_tms]: `keywords: []` / `variableMatrixWidths: []` come back nil -- the same
+    value for every user of the API).  Unconditional since the repair of F6b: the unsigned members of a decoded value
+    are whole numbers below 2^53 (C16_decoded_small), which binary64 prints and reads back exactly. *)
+Theorem C16_decode_encode_decode : forall j t, decodeTMS j = Ok t -> decodeTMS (encodeTMS t) = Ok (norm_tms t).
+Proof. exact decode_encode_decode_full. Qed.
 Print Assumptions C16_decode_encode_decode.
 
-(** the same with the readable sufficient condition: all unsigned members (tile and matrix sizes, variable matrix
-    width members) are below 2^53 ([tms_small]) -- binary64 represents them exactly *)
-Theorem C16_decode_encode_decode_small : forall j t, decodeTMS j = Ok t -> tms_small t ->
-  decodeTMS (encodeTMS t) = Ok (norm_tms t).
-Proof. exact decode_encode_decode_small_lemma. Qed.
-Print Assumptions C16_decode_encode_decode_small.
-
 (** ... the encoding does not see that identification, so it is stable: encode (decode (encode v)) = encode v ... *)
-Theorem C16_encode_stable : forall j t, decodeTMS j = Ok t -> tms_stable t ->
+Theorem C16_encode_stable : forall j t, decodeTMS j = Ok t ->
   exists t', decodeTMS (encodeTMS t) = Ok t' /\ encodeTMS t' = encodeTMS t.
-Proof. exact encode_stable_lemma. Qed.
+Proof. exact encode_stable_full. Qed.
 Print Assumptions C16_encode_stable.
 
 (** ... and from the second round on the value itself is a fixed point. *)
@@ -54,18 +46,29 @@ Theorem C16_decoded_well_formed : forall j t, decodeTMS j = Ok t -> tms_wf t.
 Proof. exact decode_wf. Qed.
 Print Assumptions C16_decoded_well_formed.
 
-(** Malformed sizes, the part that holds (name: _partial -- negative and fractional sizes are NOT rejected, see
-    C16_refuted_nonpositive_rejected below, F6b): in a document whose (last) tileMatrices member is an array containing a
-    tile matrix object with tileWidth / tileHeight / matrixWidth / matrixHeight a number whose float64 image lies
-    strictly between -1 and 1 (zero, and everything that truncates to zero), or with a cellSize / scaleDenominator
-    that is not positive, decoding does not succeed. *)
-Theorem C16_nonpositive_rejected_partial : forall o l tmo k d q,
+(** ... and all its unsigned members (tile and matrix sizes, the members of variableMatrixWidths) lie in [0, 2^53) *)
+Theorem C16_decoded_small : forall j t, decodeTMS j = Ok t -> tms_small t.
+Proof. exact decode_small. Qed.
+Print Assumptions C16_decoded_small.
+
+(** Malformed sizes are rejected, in full (since the repair of F6b): in a document whose (last) tileMatrices member is
+    an array containing a tile matrix object with
+    - tileWidth / tileHeight / matrixWidth / matrixHeight a number whose float64 image is <= 0, or negative, or not
+      whole, or >= 2^53 ([uint_number_ok q = false], spelled out by C16_size_check_meaning), or
+    - a cellSize / scaleDenominator that is not positive,
+    decoding does not succeed.  (Fractional cell sizes are of course legitimate.) *)
+Theorem C16_nonpositive_rejected : forall o l tmo k d q,
   lookup_last "tileMatrices" o = Some (JArr l) -> In (JObj tmo) l ->
   lookup_last k tmo = Some (JNum d) -> f64_dec d = FNum q ->
-  (In k size_keys /\ (-1 < q)%Q /\ (q < 1)%Q) \/ ((k = "cellSize" \/ k = "scaleDenominator") /\ (q <= 0)%Q) ->
+  (In k size_keys /\ ((q <= 0)%Q \/ uint_number_ok q = false)) \/ ((k = "cellSize" \/ k = "scaleDenominator") /\ (q <= 0)%Q) ->
   forall t, decodeTMS (JObj o) <> Ok t.
-Proof. exact nonpositive_rejected_lemma. Qed.
-Print Assumptions C16_nonpositive_rejected_partial.
+Proof. exact nonpositive_rejected_full. Qed.
+Print Assumptions C16_nonpositive_rejected.
+
+Theorem C16_size_check_meaning : forall q, uint_number_ok q = false <->
+  ((q < 0)%Q \/ Qnum q mod Z.pos (Qden q) <> 0 \/ (inject_Z (2 ^ 53) <= q)%Q).
+Proof. exact uint_number_ok_false. Qed.
+Print Assumptions C16_size_check_meaning.
 
 (** Totality: decoding NEVER panics -- for every JSON tree the answer is a value or an error.  (Unconditional since
     the repair of F6c in /repo 909171c; before, a point array with more than two elements panicked inside the
@@ -87,28 +90,6 @@ Theorem C16_decoded_matrices : forall o t, decodeTMS (JObj o) = Ok t ->
 Proof. exact decoded_matrices_lemma. Qed.
 Print Assumptions C16_decoded_matrices.
 
-(** What the code as it stands gets wrong (each witness is found again on the implementation by the harness on every
-    run and attributed to the known finding F6b). *)
-
-(** F6b: negative and fractional sizes are accepted *)
-Theorem C16_refuted_nonpositive_rejected : exists t m,
-  decodeTMS doc_negative = Ok t /\ the_tm t = Some m /\ tm_tileWidth m = 2 ^ 64 - 1.
-Proof. exact negative_width_accepted. Qed.
-Print Assumptions C16_refuted_nonpositive_rejected.
-
-Theorem C16_refuted_fraction_rejected : exists t m,
-  decodeTMS doc_fraction = Ok t /\ the_tm t = Some m /\ tm_tileWidth m = 256.
-Proof. exact fractional_width_accepted. Qed.
-Print Assumptions C16_refuted_fraction_rejected.
-
-(** F6b: decode . encode . decode is not the identity and the encoding is not stable for a wrapped size *)
-Theorem C16_refuted_decode_encode_decode : exists t t' m m',
-  decodeTMS doc_negative = Ok t /\ decodeTMS (encodeTMS t) = Ok t' /\
-  the_tm t = Some m /\ the_tm t' = Some m' /\ tm_tileWidth m = 2 ^ 64 - 1 /\ tm_tileWidth m' = 2 ^ 63 /\
-  json_eqb (encodeTMS t') (encodeTMS t) = false.
-Proof. exact wrap_not_stable. Qed.
-Print Assumptions C16_refuted_decode_encode_decode.
-
 (** Equal value is read with nil and empty slices identified (same JSON, same length, same iteration for every user
     of the API).  The model does distinguish them, as Go's reflect.DeepEqual would: `keywords: []` /
     `variableMatrixWidths: []` decode to empty non-nil slices, are not printed, and come back nil -- the two values
@@ -123,13 +104,7 @@ Proof. exact empty_slice_not_stable. Qed.
 Print Assumptions C16_empty_slice_comes_back_nil.
 
 
-(** ** Non-vacuity: every built-in document meets the hypotheses of the round trip theorem: it decodes and the
-    unsigned members of its tile matrices are stable (checked by computation through [tms_stableb]) *)
-Theorem C16_builtin_stable : forall name doc, In (name, doc) gen_tms_documents ->
-  exists t, decodeTMS doc = Ok t /\ tms_stable t.
-Proof. exact builtin_stable_thm. Qed.
-Print Assumptions C16_builtin_stable.
-
+(** ** Regressions for the repaired defects, and non-vacuity *)
 (** regression F6c (repaired): the old witnesses -- pointOfOrigin with 3 elements (used to panic), with 1 element
     (used to be accepted), null, a non-number element, and a 3-element boundingBox.lowerLeft -- are errors in the
     model of the repaired code; the well-formed document still decodes *)
@@ -139,7 +114,12 @@ Example C16_regression_F6c_points :
   exists t, decodeTMS doc_ok = Ok t.
 Proof. exact regression_F6c. Qed.
 
-(** the hypotheses of C16_nonpositive_rejected_partial are met by a concrete document: tileWidth 0 is an error *)
-Example C16_example_zero_width :
-  decodeTMS (doc_with (tm_with (jn 0 0) (JArr [jn 1 0; jn 2 0]) [])) = Error.
-Proof. vm_compute. reflexivity. Qed.
+(** regression F6b (repaired): the old witnesses -- tileWidth -1 (used to decode to 2^64 - 1 and to 2^63 after a round
+    trip), 256.5 (used to be truncated to 256) -- and 2^53, 0, a negative / fractional member of variableMatrixWidths
+    are errors in the model of the repaired code; 2^53 - 1 still decodes.  These documents also meet the hypotheses
+    of C16_nonpositive_rejected. *)
+Example C16_regression_F6b_sizes :
+  decodeTMS doc_negative = Error /\ decodeTMS doc_fraction = Error /\ decodeTMS doc_huge = Error /\
+  decodeTMS doc_zero = Error /\ decodeTMS doc_vmw_neg = Error /\ decodeTMS doc_vmw_frac = Error /\
+  exists t m, decodeTMS doc_big_ok = Ok t /\ the_tm t = Some m /\ tm_tileWidth m = 2 ^ 53 - 1.
+Proof. exact regression_F6b. Qed.
